@@ -7,6 +7,7 @@ name=$(echo "$patch" | tr '/:.' '___')
 d=/tmp/mut_$name_$$
 rm -rf $d; mkdir -p $d && cp -r /repo/fxpmath $d/ && rm -rf $d/fxpmath/__pycache__
 case "$patch" in
+ revert:*) (cd $d && git -C /repo show "${patch#revert:}" -- fxpmath | patch -R -p1 -s) || { echo "APPLY-FAIL $patch"; rm -rf $d; exit 3; } ;;
  notes:*) (cd /verif && /venv/bin/python tools/apply_note_mutant.py "${patch#notes:}" $d) || { echo "APPLY-FAIL $patch"; rm -rf $d; exit 3; } ;;
  *) (cd $d && git init -q . >/dev/null 2>&1; patch -p1 -s < "$patch") || { echo "APPLY-FAIL $patch"; rm -rf $d; exit 3; } ;;
 esac
